@@ -9,7 +9,8 @@ def handlers : List (String × Handler) :=
     ("c12.seq", C12.seqHandler),
     ("c12.inter", C12.interHandler),
     ("c15.args", C15.argsHandler),
-    ("c15.scan", C15.scanHandler) ]
+    ("c15.scan", C15.scanHandler),
+    ("c15.ops", C15.opsHandler) ]
 
 partial def loop (h : IO.FS.Stream) (out : IO.FS.Stream) (f : Handler) : IO Unit := do
   let line ← h.getLine
